@@ -400,7 +400,7 @@ PROPS = {
         title='Cartesian diagrams compute the function they draw',
         level='proof',
         vc=['cartesian.Function.__init__', 'cartesian.Function.__call__', 'cartesian.Function.then', 'cartesian.Function.tensor', 'cartesian.Function.id',
-            'monoidal.Functor.__call__[python]', 'lemma:cartesian.Diagram.__call__.quivers', 'cartesian.PythonFunctor.__init__', 'rigid.Functor.__init__', 'monoidal.Functor.__init__', 'cat.Functor.__init__', 'cat.Quiver.__init__', 'lemma:cat.Quiver.wraps', 'lemma:canary:pyfun.identity', 'monoidal.Functor.__call__[Ty]', 'lemma:functor.homomorphism', 'monoidal.Ty.tensor'],
+            'monoidal.Functor.__call__[python]', 'lemma:cartesian.Diagram.__call__.quivers', 'cartesian.PythonFunctor.__init__', 'rigid.Functor.__init__', 'monoidal.Functor.__init__', 'cat.Functor.__init__', 'cat.Quiver.__init__', 'lemma:cat.Quiver.wraps', 'lemma:canary:pyfun.identity', 'lemma:canary:pro.model', 'monoidal.Functor.__call__[Ty]', 'lemma:functor.homomorphism', 'monoidal.Ty.tensor'],
         sym=[], rtc='C19',
         level_text='Proved (VC, all diagrams of any length and width, boxes of any arity 0..n -> 0..m): the main clause. Wire '
                    'values are abstract non-tuple values (either truth value), a box function is an arbitrary map from input '
